@@ -62,7 +62,8 @@ def _num_rules(seed):
     return rr, du
 
 
-def run_pipeline(mesh, test_spec, trial_spec, kernel_key="laplace_single_layer", numeric=False, seed=0, domain_indices=None, trial_mesh=None):
+def run_pipeline(mesh, test_spec, trial_spec, kernel_key="laplace_single_layer", numeric=False, seed=0, domain_indices=None, trial_mesh=None,
+                 assembly_type="default_scalar", geometry="derived"):
     """Execute the real pipeline; returns dict with A (assembled), singular triple, and the context for the spec."""
     import bempp_cl.api as api
     from bempp_cl.api.operators import OperatorDescriptor
@@ -94,13 +95,17 @@ def run_pipeline(mesh, test_spec, trial_spec, kernel_key="laplace_single_layer",
             return np.array([stub_numeric(*(list(tp[:, j]) + list(trp[:, j]) + list(tn) + list(trn) + list(kp))) for j in range(trp.shape[1])])
     else:
         S.reset()
-        g = SG.attach_symbolic(grid, "v")
-        geo_t = GS.Geometry(g._vertices, grid.elements)
-        if tgrid is grid:
-            geo_r = geo_t
+        if geometry == "free":
+            geo_t = GS.FieldGeometry(SG.attach_free(grid, "v"))
+            geo_r = geo_t if tgrid is grid else GS.FieldGeometry(SG.attach_free(tgrid, "u"))
         else:
-            g2 = SG.attach_symbolic(tgrid, "u")
-            geo_r = GS.Geometry(g2._vertices, tgrid.elements)
+            g = SG.attach_symbolic(grid, "v")
+            geo_t = GS.Geometry(g._vertices, grid.elements)
+            if tgrid is grid:
+                geo_r = geo_t
+            else:
+                g2 = SG.attach_symbolic(tgrid, "u")
+                geo_r = GS.Geometry(g2._vertices, tgrid.elements)
         rrf = SG.sym_regular_rule(2)
         rr = rrf(0)
         du = SG.sym_duffy()
@@ -111,7 +116,7 @@ def run_pipeline(mesh, test_spec, trial_spec, kernel_key="laplace_single_layer",
         def K(x, y, nx, ny, par):
             return S.fn("K", list(x) + list(y) + list(nx) + list(ny) + list(par), stub_numeric)
 
-    desc = OperatorDescriptor("stub", par, kernel_key, "default_scalar", "double", False, None, 1)
+    desc = OperatorDescriptor("stub", par, kernel_key, assembly_type, "double", False, None, 1)
     stubs = {kernel_key + "_regular": kr, kernel_key + "_singular": ks}
     params = api.GLOBAL_PARAMETERS
     if numeric:
@@ -145,9 +150,14 @@ def _same(a, b, numeric):
     return S.is_zero(S.Sym._coerce(a) - S.Sym._coerce(b))
 
 
-def check_pipeline(mesh, test_spec, trial_spec, numeric=False, seed=0, domain_indices=None, trial_mesh=None):
+FORMS = {"default_scalar": None, "laplace_hypersingular": GS.curl_curl_form}
+
+
+def check_pipeline(mesh, test_spec, trial_spec, numeric=False, seed=0, domain_indices=None, trial_mesh=None, assembly_type="default_scalar"):
     """Returns (ok, detail, info)."""
-    ctx = run_pipeline(mesh, test_spec, trial_spec, numeric=numeric, seed=seed, domain_indices=domain_indices, trial_mesh=trial_mesh)
+    ctx = run_pipeline(mesh, test_spec, trial_spec, numeric=numeric, seed=seed, domain_indices=domain_indices, trial_mesh=trial_mesh,
+                       assembly_type=assembly_type, geometry="derived" if assembly_type == "default_scalar" else "free")
+    form = FORMS[assembly_type]
     test, trial, grid = ctx["test"], ctx["trial"], ctx["grid"]
     same_grid = ctx["tgrid"] is grid
     tshape, rshape = test.shapeset.identifier, trial.shapeset.identifier
@@ -177,7 +187,7 @@ def check_pipeline(mesh, test_spec, trial_spec, numeric=False, seed=0, domain_in
             if E not in tsupp or F not in rsupp:
                 return False, "singular pair (%d,%d) outside the supports" % (E, F), {}
             kind, cands = GS.local_integrals(geo_t, geo_r, E, F, True, tshape, rshape, int(test.normal_multipliers[E]), int(trial.normal_multipliers[F]),
-                                             ctx["K"], ctx["par"], ctx["rr"], ctx["du"])
+                                             ctx["K"], ctx["par"], ctx["rr"], ctx["du"], form)
             if kind == "regular":
                 return False, "pair (%d,%d) shares no vertex but is integrated with a singular rule" % (E, F), {}
             got = np.asarray(vals[blk]).reshape(nt, nr)
@@ -204,7 +214,7 @@ def check_pipeline(mesh, test_spec, trial_spec, numeric=False, seed=0, domain_in
             if (E, F) in local:
                 continue
             kind, cands = GS.local_integrals(geo_t, geo_r, E, F, same_grid, tshape, rshape, int(test.normal_multipliers[E]), int(trial.normal_multipliers[F]),
-                                             ctx["K"], ctx["par"], ctx["rr"], ctx["du"])
+                                             ctx["K"], ctx["par"], ctx["rr"], ctx["du"], form)
             local[(E, F)] = cands[0]
             n_reg += 1
     exp = GS.scatter(local, test, trial, test.global_dof_count, trial.global_dof_count)
@@ -218,9 +228,10 @@ def check_pipeline(mesh, test_spec, trial_spec, numeric=False, seed=0, domain_in
     return True, "%d singular + %d regular element pairs, matrix %dx%d" % (n_sing, n_reg, exp.shape[0], exp.shape[1]), {}
 
 
-def replay_pipeline(mesh, test_spec, trial_spec, domain_indices=None, trial_mesh=None, seed=0):
+def replay_pipeline(mesh, test_spec, trial_spec, domain_indices=None, trial_mesh=None, seed=0, assembly_type="default_scalar"):
     ok, detail, info = check_pipeline(mesh, _spec(test_spec), _spec(trial_spec), numeric=True, seed=seed,
-                                      domain_indices=np.array(domain_indices, dtype="uint32") if domain_indices is not None else None, trial_mesh=trial_mesh)
+                                      domain_indices=np.array(domain_indices, dtype="uint32") if domain_indices is not None else None, trial_mesh=trial_mesh,
+                                      assembly_type=assembly_type)
     return {"violates": not ok, "detail": detail}
 
 
@@ -228,15 +239,15 @@ def _spec(s):
     return (s[0], int(s[1]), dict(s[2]))
 
 
-def ob_pipeline(mesh, test_spec, trial_spec, domain_indices=None, trial_mesh=None):
+def ob_pipeline(mesh, test_spec, trial_spec, domain_indices=None, trial_mesh=None, assembly_type="default_scalar"):
     di = np.array(domain_indices, dtype="uint32") if domain_indices is not None else None
-    ok, detail, info = check_pipeline(mesh, test_spec, trial_spec, numeric=False, domain_indices=di, trial_mesh=trial_mesh)
+    ok, detail, info = check_pipeline(mesh, test_spec, trial_spec, numeric=False, domain_indices=di, trial_mesh=trial_mesh, assembly_type=assembly_type)
     if ok:
         return proved("sym-exec+normal-form", detail)
-    rp = replay_pipeline(mesh, list(test_spec), list(trial_spec), domain_indices, trial_mesh)
+    rp = replay_pipeline(mesh, list(test_spec), list(trial_spec), domain_indices, trial_mesh, assembly_type=assembly_type)
     return violated(detail, witness={"mesh": mesh, "test": list(test_spec), "trial": list(trial_spec), "domain_indices": domain_indices},
                     replay={"callable": "vlib.pipeline:replay_pipeline",
                             "kwargs": {"mesh": mesh, "test_spec": list(test_spec), "trial_spec": list(trial_spec), "domain_indices": domain_indices,
-                                       "trial_mesh": trial_mesh},
+                                       "trial_mesh": trial_mesh, "assembly_type": assembly_type},
                             "confirmed": rp["violates"], "result": rp},
-                    signature="pipeline/%s/%s/%s" % (mesh, test_spec[0] + str(test_spec[1]), trial_spec[0] + str(trial_spec[1])))
+                    signature="pipeline/%s/%s/%s/%s" % (assembly_type, mesh, test_spec[0] + str(test_spec[1]), trial_spec[0] + str(trial_spec[1])))
